@@ -19,10 +19,11 @@ META = {
         "_run_request returns None only when the reply body is empty; C06.5 check_for_errors never modifies the reply it is given "
         "(a second check / access of the same batch item raises again); C06.6 (shared with C08.2) every reply is decoded with the "
         "proxy's own configuration, so an error object's data member is translated (or not) as for any other reply and cannot raise a "
-        "foreign exception type through another object's configuration.; C06.7 (imported C19.3) every reply is reassembled in its own buffer: no data of an earlier, possibly truncated, reply is parsed with the next one"),
+        "foreign exception type through another object's configuration.; C06.7 (imported C19.3) every reply is reassembled in its own buffer: no data of an earlier, possibly truncated, reply is parsed with the next one C06.9 (imported from C02.6) replies are decoded by json.loads itself (a home-made decoder - raw_decode, pre-processing - would accept bodies that are not JSON texts and return a value where an error is due)."),
     "does_not_decide": "nothing value-level beyond the comparisons; envelope-level rejections raised before the error "
                        "branch (non-dict reply, jsonrpc > 2.0) are outside the property's domain.",
-    "rules": {"C06.7": "imported C19.3", "C06.1": "E4 may-raise analysis restricted to the region dominated by the truthy error member",
+    "rules": {"C06.9": "imported C02.6 (backend options, loader)",
+              "C06.7": "imported C19.3", "C06.1": "E4 may-raise analysis restricted to the region dominated by the truthy error member",
               "C06.2": "shape interpreter (E7) over reply shapes vs spec A.1 range", "C06.3": "provenance of return values",
               "C06.4": "dominance of the check over each consumer; provenance of the checked value", "C06.5": "mutation scan with receiver provenance",
               "C06.6": "imported C08.2"},
@@ -284,3 +285,8 @@ def check(ck):
     from rules import c19 as _c19
     common.import_rules(ck, _c19, {"C19.3": "C06.7"})
     ck.floor("C06.7", 8)
+
+    # ---- C06.9 the reply is parsed by the JSON parser itself (shared with C02.6) -------------------------------------------------
+    from rules import c02 as _c02t6, common as _cm69
+    _cm69.import_rules(ck, _c02t6, {"C02.6": "C06.9"})
+    ck.floor("C06.9", 3)
